@@ -166,7 +166,7 @@ pub fn jobs(ctx: &Ctx) -> Vec<J> {
         for level in 0..4usize {
             for i in 0..dense {
                 k += 1;
-                jobs.push(J::Dense { v, level, kind: if i < 17 { i } else { 0 }, seed: mix(ctx.seed, k) });
+                jobs.push(J::Dense { v, level, kind: if i < 21 { i } else { 0 }, seed: mix(ctx.seed, k) });
             }
             for _ in 0..ctx.tier.pick(6, ctx.scale(240)) {
                 k += 1;
@@ -300,6 +300,33 @@ pub fn observe(ctx: &Ctx, st: &mut Stats, j: &J) {
                     data = crate::craft::data_codewords_for_shape(v, level, kind - 6, seed);
                     st.count("block_shape_arrays_checked", 1);
                     st.reach("block_shapes", (kind - 6) as u64);
+                }
+                // cancelling windows: k consecutive data bytes of every block are chosen so that they cancel the running
+                // remainder (k leading coefficients in a row are zero during the division), at the END of the block
+                // (17: k = 1..4, 18: k = 7..9, 19: k = ec-1 .. ec+1) or in its interior (20): long division that skips
+                // zero coefficients several at a time has its boundary cases exactly here
+                17..=20 => {
+                    let ec = lay.ec_per_block;
+                    let mut off = 0;
+                    for b in 0..lay.num_blocks {
+                        let len = lay.block_data_len(b);
+                        let k = match kind {
+                            17 => 1 + rng.below(4),
+                            18 => 7 + rng.below(3),
+                            19 => (ec + rng.below(3)).saturating_sub(1),
+                            _ => 1 + rng.below(12),
+                        }
+                        .min(len - 1)
+                        .max(1);
+                        let start = if kind == 20 { rng.below(len - k) } else { len - k };
+                        for i in 0..k {
+                            // remainder of block[..start+i] * x^ec: its first byte is what the next coefficient meets
+                            let rem = gf::rs_remainder(&data[off..off + start + i], ec);
+                            data[off + start + i] = rem[0];
+                        }
+                        off += len;
+                    }
+                    st.count("cancelling_window_arrays_checked", 1);
                 }
                 _ => {}
             }
@@ -555,13 +582,13 @@ pub fn run(ctx: &Ctx) -> Report {
     let mut rep = Report::new(
         st,
         &format!(
-            "hooked call site polynomials::structure driven directly: for every distinct (block data length, generator degree) pair of Table 9 ({npairs} pairs, smallest cell that has it) a data array that is zero except ONE byte at EVERY position with {} values; + sparse basis in the last / group-boundary blocks of all 160 cells; + get_polynomial for all 160 cells compared coefficient by coefficient with prod(x - alpha^i) computed by shift-and-xor arithmetic; + dense arrays in all 160 cells (random, leading zero runs, interior zero runs, all 0xFF, all zero, sparse); + linearity probes structure(a)^structure(b)==structure(a^b); + symbols BUILT through the public API in all 160 cells (random bytes, crafted block shapes, digits; builder histories, carriers and transports of the adapter): read back codeword by codeword, every block's EC must be the remainder of its data for the degree of the announced cell; oracle = table-free GF(256) long division; every output is de-interleaved by the oracle layout and compared in full (data order, EC of every block); distinct key = (pair, position, value) / (cell) / (array seed); every case non-trivial",
+            "hooked call site polynomials::structure driven directly: for every distinct (block data length, generator degree) pair of Table 9 ({npairs} pairs, smallest cell that has it) a data array that is zero except ONE byte at EVERY position with {} values; + sparse basis in the last / group-boundary blocks of all 160 cells; + get_polynomial for all 160 cells compared coefficient by coefficient with prod(x - alpha^i) computed by shift-and-xor arithmetic; + dense arrays in all 160 cells (random, leading zero runs, interior zero runs, all 0xFF, all zero, sparse, crafted block shapes, windows of 1..ec+1 data bytes that cancel the running remainder at the end and inside every block); + linearity probes structure(a)^structure(b)==structure(a^b); + symbols BUILT through the public API in all 160 cells (random bytes, crafted block shapes, digits; builder histories, carriers and transports of the adapter): read back codeword by codeword, every block's EC must be the remainder of its data for the degree of the announced cell; oracle = table-free GF(256) long division; every output is de-interleaved by the oracle layout and compared in full (data order, EC of every block); distinct key = (pair, position, value) / (cell) / (array seed); every case non-trivial",
             if all_values { "ALL 255 non-zero" } else { "40 (8 fixed + 32 seeded) non-zero" }
         ),
     );
     rep.exhaustive = Some(all_values);
-    rep.expected_sets = vec![("blocklen_ec_pairs", npairs), ("degrees", 13), ("generator_cells", 160), ("dense_cells", 160), ("dense_kinds", 17), ("built_cells", 160)];
-    rep.required_sets = vec![("blocklen_ec_pairs", npairs), ("degrees", 13), ("generator_cells", 160), ("dense_cells", 160), ("dense_kinds", 17), ("built_cells", 160)];
+    rep.expected_sets = vec![("blocklen_ec_pairs", npairs), ("degrees", 13), ("generator_cells", 160), ("dense_cells", 160), ("dense_kinds", 21), ("built_cells", 160)];
+    rep.required_sets = vec![("blocklen_ec_pairs", npairs), ("degrees", 13), ("generator_cells", 160), ("dense_cells", 160), ("dense_kinds", 21), ("built_cells", 160)];
     rep.min_evaluations = if all_values { 1_300_000 } else { 100_000 };
     rep.assumptions = vec![
         "exhaustive (when true) refers to the single-non-zero-byte basis: every position x every non-zero value for every (block length, degree) pair in use; general contents follow by GF(2)-linearity, which is additionally observed on sampled combinations, not assumed".into(),
